@@ -290,7 +290,8 @@ type ServerConfig struct {
 	TunnelRemoteAddress conn.Addr `json:"tunnelRemoteAddress,omitzero"`
 
 	// TunnelUDPTargetOnly controls whether to "connect" to the destination address for UDP.
-	// If true, the server will drop packets that are not sent from [TunnelRemoteAddress].
+	// If true, the server will drop packets that are not sent from [TunnelRemoteAddress],
+	// which must be an IP address.
 	TunnelUDPTargetOnly bool `json:"tunnelUDPTargetOnly,omitzero"`
 
 	tcpEnabled bool
@@ -588,6 +589,9 @@ func (sc *ServerConfig) UDPRelay(logger *zap.Logger, maxClientPackerHeadroom zer
 
 	switch sc.Protocol {
 	case "direct":
+		if sc.TunnelUDPTargetOnly && !sc.TunnelRemoteAddress.IsIP() {
+			return nil, errors.New("tunnelUDPTargetOnly requires tunnelRemoteAddress to be an IP address")
+		}
 		natServer = direct.NewDirectUDPNATServer(sc.TunnelRemoteAddress, sc.TunnelUDPTargetOnly)
 
 	case "tproxy":
